@@ -13,7 +13,7 @@ RULE = ('design spaces: G-sel (gen_sel / layered graphs with nested choices, des
         'option), apply-connection-choice (a random offered edge set), constrain-choices on a copy, decode through a '
         'GraphProcessor of the initial graph (random vectors, create=True), store a design-variable / metric value on a live '
         'graph; after every operation all live graphs are observed -- nodes, edges, feasible, final, next choice nodes, option '
-        'lists, offered connection sets and the connector degree settings per connection choice, stored values -- in an order '
+        'lists, choice constraints, offered connection sets and the connector degree settings per connection choice, stored values -- in an order '
         'that alternates between oldest-first and newest-first; non-trivial = a history with at least 3 live graphs of which one '
         'differs from its parent; distinct = graph + operation list')
 TRUSTED = ['observations are canonical JSON strings interned to integers before they are handed to the model',
@@ -34,7 +34,7 @@ def batches(tier, seed):
         kind = i % 3
         for _try in range(60):
             if kind == 0:
-                c = dsgcase.gen_layered(rng, cons_prob=0.2)
+                c = dsgcase.gen_layered(rng, cons_prob=0.5)
             else:
                 c = dsgcase.gen_sel(rng, max_nodes=9, max_choices=3, n_incompat=rng.choice([0, 0, 1]), cons_prob=0.1)
             if not dsgcase.guards(c):
@@ -97,6 +97,10 @@ def observe(b, g, conn_ids, reverse=False):
                 except Exception as e:
                     opts[str(nid(c))] = 'exc:' + type(e).__name__
             o['options'] = opts
+            try:
+                o['cons'] = sorted([str(cc_.type), [str(nid(n)) for n in cc_.nodes]] for cc_ in g.get_choice_constraints())
+            except Exception as e:
+                o['cons'] = 'exc:' + type(e).__name__
             o['dv'] = sorted([str(nid(k)), repr(float(v))] for k, v in g.des_var_values.items())
             o['metric'] = sorted([str(nid(k)), repr(float(v))] for k, v in g.metric_values.items())
     return json.dumps(o, sort_keys=True)
